@@ -281,6 +281,13 @@ func (s *Server[StateT]) handleWriteFile(ctx *Context[StateT]) error {
 	}
 
 	written, err := s.Handler.HandleWriteFile(ctx, data)
+
+	// the payload belongs to this request whatever the handler did with it:
+	// consume what it left unread, otherwise the rest would be parsed as commands
+	if _, discardErr := io.Copy(io.Discard, data); discardErr != nil {
+		return fmt.Errorf("discard unread file data failed: %w", discardErr)
+	}
+
 	if err != nil {
 		return ctx.wr.SendWriteFileError()
 	}
